@@ -49,6 +49,7 @@ type Weights struct {
 	Register, Deregister, KV, Session, Txn, Reap, Advance, Snapshot, Restart, Fault, Ext int
 	KVLockBias                                                                           int  // extra weight of lock/unlock among KV verbs
 	CaseVariants                                                                         bool // service names in varying case (C06)
+	DestCaseVariants                                                                     bool // proxy destination names in varying case (C11)
 	Peer                                                                                 bool
 	Kinds                                                                                bool
 	InPlaceKind                                                                          bool
@@ -162,6 +163,10 @@ func (g *Gen) fillService(s *Step) {
 			s.Kind = "connect-proxy"
 			s.Dest = g.pick(g.U.Services)
 			s.Svc = s.Dest + "-sidecar-proxy"
+			if g.W.DestCaseVariants && simkit.Chance(g.R, 20) {
+				// the connect index of the catalog matches destination names case-insensitively
+				s.Dest = strings.ToUpper(s.Dest[:1]) + s.Dest[1:]
+			}
 			if s.SvcID != "" {
 				s.SvcID = s.Svc + g.pick([]string{"1", "2"})
 			}
